@@ -332,6 +332,9 @@ class Check:
     def proofs(self, prop_file=None, extra_targets=()):
         """Build the property's Coq cone; check Print Assumptions and forbidden constructs."""
         prop_file = prop_file or "Props/%s.v" % self.pid
+        if os.environ.get("VERIF_DEV_SKIP_PROOFS"):     # development aid only; never set by a registered command
+            self.notes.append("proof step skipped (VERIF_DEV_SKIP_PROOFS)")
+            return True
         with Lock():
             ok, out = run_translator()
             if not ok:
